@@ -1,17 +1,16 @@
 import SamVerif.Props.C01
 /-! Axiom audit of every C01 property theorem (parsed by vlib/common.py). -/
 open SamVerif.C01
-#print axioms encode_injective_partial
-#print axioms testVariant_exact_partial
-#print axioms typePermit_sound_finished
-#print axioms typePermit_unsound_in_progress_counterexample
-#print axioms layout_injective_counterexample
-#print axioms decode_counterexample
+#print axioms layout_injective
+#print axioms lowered_tests_exact
+#print axioms encode_injective_of_inv
+#print axioms testVariant_exact_of_inv
+#print axioms ptr_of_hasTy
 #print axioms seqAssign_eq_par_partial
 #print axioms seqAssign_eq_par_counterexample
 #print axioms tailrec_equiv_par
-#print axioms tailrec_equiv_seq_partial
-#print axioms tailrec_equiv_seq_counterexample
+#print axioms tailrec_equiv_seq
+#print axioms swap_regression
 #print axioms meet_comm
 #print axioms meet_assoc
 #print axioms meet_idem
